@@ -39,6 +39,9 @@ pub enum ModelParseError {
     #[error("USE_GV is true, but positions for GV is not set")]
     UseGvError,
 
+    #[error("A size written in the header is too large")]
+    SizeOverflow,
+
     #[error("Failed to parse question: {0}")]
     QuestionParseError(#[from] jlabel_question::ParseError),
 }
@@ -113,7 +116,10 @@ fn parse_data_section(
         input,
         position.duration_tree,
         position.duration_pdf,
-        global.num_states * 2,
+        global
+            .num_states
+            .checked_mul(2)
+            .ok_or(ModelParseError::SizeOverflow)?,
     )?;
 
     let stream_models: Vec<StreamModels> = global
@@ -133,8 +139,12 @@ fn parse_data_section(
                 input,
                 pos.stream_tree,
                 pos.stream_pdf,
-                stream_data.vector_length * stream_data.num_windows * 2
-                    + (stream_data.is_msd as usize),
+                stream_data
+                    .vector_length
+                    .checked_mul(stream_data.num_windows)
+                    .and_then(|n| n.checked_mul(2))
+                    .and_then(|n| n.checked_add(stream_data.is_msd as usize))
+                    .ok_or(ModelParseError::SizeOverflow)?,
             )?;
 
             let gv_model = if stream_data.use_gv {
@@ -142,7 +152,10 @@ fn parse_data_section(
                     input,
                     pos.gv_tree.ok_or(ModelParseError::UseGvError)?,
                     pos.gv_pdf.ok_or(ModelParseError::UseGvError)?,
-                    stream_data.vector_length * 2,
+                    stream_data
+                        .vector_length
+                        .checked_mul(2)
+                        .ok_or(ModelParseError::SizeOverflow)?,
                 )?;
                 Some(gv_model)
             } else {
